@@ -45,10 +45,18 @@ def gen_world(rng, max_files=3, allow_include=True, nprobes=(3, 10), plain_prefi
                     nm = cand
             labels.append((nm, f))
             f.items.append(("label", nm))
+    # shadowing: a later unit's own (private) label carries a name that the first linked file exports as something else;
+    # inside that unit the name means its own label, wherever the reference stands
+    shadow = {}           # name -> owning file
+    if len(allf) > 1 and rng.random() < 0.35:
+        cands = [(nm, f) for nm, f in labels if f is not files[0]]
+        for nm, f in rng.sample(cands, min(len(cands), rng.randint(1, 2))):
+            shadow[nm] = f
+            files[0].items.append(("xdef", nm, rng.choice(["const", "label"])))
     # equates: a name for an address plus a number, defined anywhere (before or after the label, in any file)
     aliases = []
     for _ in range(rng.choice([0, 1, 2, 3])):
-        tgt, tf = rng.choice(labels)
+        tgt, tf = rng.choice([x for x in labels if x[0] not in shadow])
         f = rng.choice(allf)
         nm = "EQ%d%s" % (len(aliases), rng.choice(["", "x", ".a"]))
         k = rng.choice([0, 2, 4, -2, 10])
@@ -101,6 +109,8 @@ def gen_world(rng, max_files=3, allow_include=True, nprobes=(3, 10), plain_prefi
         for i, it in enumerate(f.items):
             if it[0] == "label":
                 addr[it[1]] = a
+            elif it[0] == "xdef":
+                pass
             elif it[0] == "pad":
                 a += it[2]
             elif it[0] == "include":
@@ -124,9 +134,12 @@ def gen_world(rng, max_files=3, allow_include=True, nprobes=(3, 10), plain_prefi
         if file_of[tgt] is not f:
             exported.add(tgt)
     probes = []
+    all_labels = labels
     for f, i, pa, reps in probe_slots:
         tmpl = rng.choice(TEMPLATES)
-        t1 = rng.choice(labels)
+        labels = [x for x in all_labels if x[0] not in shadow or shadow[x[0]] is f]
+        own_shadowed = [x for x in labels if x[0] in shadow]
+        t1 = rng.choice(own_shadowed) if own_shadowed and rng.random() < 0.5 else rng.choice(labels)
         t2 = rng.choice(labels)
         if tmpl[0] == "branch":
             near = [(nm, ff) for nm, ff in labels if all(-256 <= addr[nm] - (pa + PROBE_SIZE * k + 2) <= 254 for k in range(reps))]
@@ -148,17 +161,21 @@ def gen_world(rng, max_files=3, allow_include=True, nprobes=(3, 10), plain_prefi
         assert all(q["src"] == passes[0]["src"] for q in passes)
         f.items[i] = ("probe", passes[0], reps)
         probes += passes
+    labels = all_labels
     # some labels are exported although nobody needs it
     for nm, _ in labels:
         if rng.random() < 0.15:
             exported.add(nm)
     alias_names = {a[0] for a in aliases}
+    exported -= set(shadow)
     texts = []
     for f in allf:
         lines = []
         for it in f.items:
             if it[0] == "label":
                 lines.append("%s%s" % (it[1], "::" if it[1] in exported else ":"))
+            elif it[0] == "xdef":
+                lines.append("%s == %o" % (it[1], 0o40000 + 2 * len(it[1])) if it[2] == "const" else "%s::" % it[1])
             elif it[0] == "alias":
                 e = it[2] if it[3] == 0 else "%s %s %o" % (it[2], "+" if it[3] > 0 else "-", abs(it[3]))
                 lines.append("%s %s %s" % (it[1], "==" if it[1] in exported else "=", e))
@@ -171,7 +188,7 @@ def gen_world(rng, max_files=3, allow_include=True, nprobes=(3, 10), plain_prefi
             else:
                 lines.append(".repeat %d {\n%s\n}" % (it[2], it[1]["src"]))
         texts.append((f.name, "\n".join(lines) + "\n"))
-    return {"files": texts, "main": nmain, "base": base, "labels": addr, "probes": probes}
+    return {"files": texts, "main": nmain, "base": base, "labels": addr, "probes": probes, "shadowed": sorted(shadow)}
 
 
 PROBE_SIZE = 6       # every probe is padded with nops to six bytes
@@ -361,6 +378,7 @@ def stream_reach(ctx, rng, n, impl):
         ctx.case(("world", repr(w["files"])), nontrivial=len(w["files"]) > 1)
         ctx.count("placement-worlds")
         ctx.count("placement-worlds-with-include", len(w["files"]) > w["main"])
+        ctx.count("placement-worlds with a shadowed exported name", bool(w["shadowed"]))
         if r.outcome != "ok" or r.base != w["base"]:
             ctx.violation("a program whose branches are all within reach was not assembled at its base", inp, expected="an image", observed=r.summary())
             continue
@@ -400,7 +418,12 @@ def stream_layout(ctx, rng, n, impl, trace_invariant=None):
             got.setdefault(nm.lower(), set()).add(v)
         for nm, a in w["labels"].items():
             ctx.count("placement-labels")
-            if got.get(nm.lower()) != {a}:
+            if nm in w["shadowed"]:
+                # the name is also exported by the first file as something else: the unit's own label must be among them
+                ok = a in got.get(nm.lower(), set())
+            else:
+                ok = got.get(nm.lower()) == {a}
+            if not ok:
                 ctx.violation("a label does not have the address of the byte that follows it", dict(inp, label=nm),
                               expected=a, observed=sorted(got.get(nm.lower(), [])))
         for p in w["probes"]:
